@@ -54,6 +54,15 @@ def step (st : Unit) (j : Json) : Unit × List String :=
                        verifies := fun _ _ _ => jBool v "verified", verifiesSplit := fun _ _ _ => false }
       let didOf := fun (kid : String) => (kid.splitOn "#").headD ""
       vcJwtSignature Facts.C17.supportedAlgs E (jStr j "issuer") didOf info
+    | "authzv1" =>
+      let E : Env := { resolve := fun _ => if jBool v "keyfound" then some "K" else none, embeddedKey := fun _ => none,
+                       verifies := fun _ _ _ => jBool v "verified", verifiesSplit := fun _ _ _ => false }
+      let didOf := fun (kid : String) => (kid.splitOn "#").headD ""
+      authzV1 Facts.C17.supportedAlgs Facts.C17.authzV1ChecksKidIssuer E (jStr j "issuer") (jBool v "issparses") didOf info
+    | "introspect" =>
+      let E : Env := { resolve := fun _ => if jBool v "keyfound" && jBool v "ownkey" then some "K" else none, embeddedKey := fun _ => none,
+                       verifies := fun _ _ _ => jBool v "verified", verifiesSplit := fun _ _ _ => false }
+      parseJWT Facts.C17.supportedAlgs E info
     | "parsejws" =>
       let found := jBools v "keyfound"
       let ver := jBools v "verified"
